@@ -4,7 +4,7 @@ from contextvars import ContextVar
 
 from .interpret import Immediate, Interactor, Total
 from .selector import check_element, select, verify
-from .transform import SyncedStackedTransforms, transform
+from .transform import SyncedStackedTransforms, _tooling_lock, transform
 from .utils import autocreate, is_tooled, keyword_decorator
 
 # Cache whether functions match selectors
@@ -372,19 +372,23 @@ def _tooler(fn, captures):
     if not hasattr(fn, "__code__"):
         raise TypeError(f"{fn} cannot be tooled")
 
-    if hasattr(fn, "__ptera_stack__"):
-        st = fn.__ptera_stack__
-    else:
-        st = fn.__ptera_stack__ = SyncedStackedTransforms(fn, proceed=proceed)
+    with _tooling_lock:
+        if hasattr(fn, "__ptera_stack__"):
+            st = fn.__ptera_stack__
+        else:
+            st = fn.__ptera_stack__ = SyncedStackedTransforms(
+                fn, proceed=proceed
+            )
 
-    st.push(captures)
+        st.push(captures)
     return fn
 
 
 def _untooler(fn, captures):
-    if hasattr(fn, "__ptera_stack__"):
-        st = fn.__ptera_stack__
-        st.pop(captures)
+    with _tooling_lock:
+        if hasattr(fn, "__ptera_stack__"):
+            st = fn.__ptera_stack__
+            st.pop(captures)
     return fn
 
 
